@@ -62,16 +62,18 @@ class Problem:
         :param var_idx: the index of the variable
         :return: a list of sub-problems
         """
-        shr_dom = self.shr_domains_lst[var_idx]
+        shr_dom_idx = self.dom_indices_lst[var_idx]
+        shr_dom = self.shr_domains_lst[shr_dom_idx]
         shr_dom_min = shr_dom[0]
         shr_dom_max = shr_dom[1]
         shr_dom_sz = shr_dom_max - shr_dom_min + 1
+        split_nb = min(split_nb, shr_dom_sz)  # there cannot be more sub-problems than values
         problems = []
         min_idx = shr_dom_min
         for split_idx in range(split_nb):
             problem = copy.deepcopy(self)
             max_idx = min_idx + shr_dom_sz // split_nb - (0 if split_idx < shr_dom_sz % split_nb else 1)
-            problem.shr_domains_lst[var_idx] = [min_idx, max_idx]
+            problem.shr_domains_lst[shr_dom_idx] = [min_idx, max_idx]
             min_idx = max_idx + 1
             problems.append(problem)
         return problems
